@@ -428,6 +428,9 @@ func (c12) Run(t *tape.Tape, cfg sim.Config) (res sim.Result) {
 	if focus || t.Chance(1, 4) {
 		o.MinFuncs, o.MaxFuncs, o.MaxAtoms = 66, 140, 3 // more functions than one 64-bit word of anything
 	}
+	// functions made mostly of loops: with close-on-context-done every loop header carries a check that
+	// no instruction of the body corresponds to
+	o.Loopy = t.Chance(1, 4)
 	p := plan.Generate(t, o)
 	p.Name = "pn"
 	bin := p.Encode()
@@ -435,11 +438,20 @@ func (c12) Run(t *tape.Tape, cfg sim.Config) (res sim.Result) {
 	// with an empty one, after the last section or before the first
 	full := []byte{0, 8, 4, 'm', 'e', 't', 'a', 1, 2, 3}
 	empty := []byte{0, 5, 4, 'v', 'o', 'i', 'd'}
-	switch t.Choose(7) {
+	csKind := t.Choose(7)
+	dwKind := -1
+	if o.Loopy && t.Chance(1, 2) {
+		csKind, dwKind = 6, 0
+		res.Stat("probe.loop_headers_with_debug_sections", 1)
+	}
+	switch csKind {
 	case 6:
 		// guest-chosen debug sections: rows without a file (read only when debug info is enabled and a
 		// stack trace is built)
-		bin = append(bin, wasmb.DegenerateDWARFKind(t.Choose(3))...)
+		if dwKind < 0 {
+			dwKind = t.Choose(3)
+		}
+		bin = append(bin, wasmb.DegenerateDWARFKind(dwKind)...)
 		res.Stat("probe.degenerate_dwarf_sections", 1)
 	case 1:
 		bin = append(bin, full...)
